@@ -193,6 +193,22 @@ def select (g : GCXS Int) (rows cols : List Nat) (posSlice : Bool) : Except Err 
   let s ← if posSlice then slicingSelection g.indices se cols else pure (arraySelection g.indices se cols)
   pure (s, s.indList.map fun p => g.data.getD p 0)
 
+/-- the post-processing shared by the "only compressed axes" and "only uncompressed axes" cases of `_getitem`:
+`pos` are the linear positions (row-major in `shape`) of the selected elements, in increasing order.
+```
+if len(shape) == 1: indices = pos; indptr = None
+else: indices = pos % size; indptr[0] = 0; np.cumsum(np.bincount(pos // size, minlength=shape[0]), out=indptr[1:])
+```
+with `size = np.prod(shape[1:])`; the result is `GCXS((data, indices, indptr), shape, compressed_axes=(0,))`
+(`compressed_axes=None` for a 1-d result). -/
+def vecResult (shape : List Nat) (pos : List Nat) (data : List Int) (fill : Int) : GCXS Int :=
+  let size := prod (shape.drop 1)
+  if shape.length = 1 then
+    { shape := shape, caxes := none, indptr := [], indices := pos, data := data, fill := fill }
+  else
+    { shape := shape, caxes := some [0], indptr := indptrOf (pos.map (· / size)) (shape.getD 0 0),
+      indices := pos.map (· % size), data := data, fill := fill }
+
 /-- `get_single_element` -/
 def getSingle (g : GCXS Int) (caxes : List Nat) (key : List NIx) : Int :=
   let order := axisOrder g.shape.length caxes
@@ -223,23 +239,13 @@ def getitemCore (g : GCXS Int) (key : List NIx) : Except Err GResult :=
     match g.select rows cols posSlice with
     | .error e => .error e
     | .ok (s, data) =>
-      let size := prod (shape.drop 1)
       if !anyU then
-        -- only compressed axes are indexed: every row holds at most the one requested column
-        let unc := uncompress s.indptr
-        if shape.length = 1 then
-          .ok (.arr { shape := shape, caxes := none, indptr := [], indices := unc, data := data, fill := g.fill })
-        else
-          .ok (.arr { shape := shape, caxes := some [0], indptr := indptrOf (unc.map (· / size)) (shape.getD 0 0),
-                      indices := unc.map (· % size), data := data, fill := g.fill })
+        -- only compressed axes are indexed: every row holds at most the one requested column; the row numbers
+        -- (`uncompress_dimension(indptr)`) are the linear positions in the result
+        .ok (.arr (vecResult shape (uncompress s.indptr) data g.fill))
       else if !anyC then
-        -- only uncompressed axes are indexed: one row
-        if shape.length = 1 then
-          .ok (.arr { shape := shape, caxes := none, indptr := [], indices := s.indices, data := data, fill := g.fill })
-        else
-          .ok (.arr { shape := shape, caxes := some [0],
-                      indptr := indptrOf (s.indices.map (· / size)) (shape.getD 0 0),
-                      indices := s.indices.map (· % size), data := data, fill := g.fill })
+        -- only uncompressed axes are indexed: one row, whose column positions are the linear positions
+        .ok (.arr (vecResult shape s.indices data g.fill))
       else
         .ok (.arr { shape := shape, caxes := some (newCaxes 0 key cm), indptr := s.indptr, indices := s.indices,
                     data := data, fill := g.fill })
